@@ -238,10 +238,16 @@ func (rpt *Report) selectOutputUnit(g *graph.Graph) {
 func (rpt *Report) newGraph(nodes graph.NodeSet) *graph.Graph {
 	o := rpt.options
 
-	// Clean up file paths using heuristics.
+	// Clean up file paths using heuristics. The clean-up is not idempotent
+	// (a path can contain the name of a source directory more than once), so
+	// do it when the full graph is built and not again when the graph is
+	// rebuilt from the nodes that survived trimming: the kept nodes are
+	// identified by the file names of the first pass.
 	prof := rpt.prof
-	for _, f := range prof.Function {
-		f.Filename = trimPath(f.Filename, o.TrimPath, o.SourcePath)
+	if nodes == nil {
+		for _, f := range prof.Function {
+			f.Filename = trimPath(f.Filename, o.TrimPath, o.SourcePath)
+		}
 	}
 	// Removes all numeric tags except for the bytes tag prior
 	// to making graph.
